@@ -3,6 +3,8 @@ import YProofs.Lemmas.CacheLemmas
 namespace YModel
 variable {α β : Type} [DecidableEq α]
 
+namespace LRU
+
 /-- distinct keys of a call sequence ordered by recency; the argument lists the calls **latest first** -/
 def recent : List α → List α
   | [] => []
@@ -81,24 +83,24 @@ theorem filter_take_of_mem (l : List α) (hl : l.Nodup) (x : α) (n : Nat) (h : 
         obtain ⟨j, rfl⟩ : ∃ j, k = j + 1 := ⟨k - 1, by omega⟩
         rw [List.take_succ_cons, Nat.add_sub_cancel]
 
-theorem LRU.call_keys (f : α → β) (c : LRU α β) (x : α) :
+theorem call_keys (f : α → β) (c : LRU α β) (x : α) :
     (c.call f x).1.keys = if x ∈ c.keys then x :: c.keys.filter (fun k => k ≠ x) else (x :: c.keys).take c.cap := by
-  unfold LRU.call
+  unfold call
   cases h : c.find? x with
   | none =>
-    have hx : x ∉ c.keys := LRU.find?_none.mp h
+    have hx : x ∉ c.keys := find?_none.mp h
     rw [if_neg hx]
-    simp only [LRU.keys, List.map_take, List.map_cons]
+    simp only [keys, List.map_take, List.map_cons]
   | some y =>
-    have hx : x ∈ c.keys := List.mem_map.mpr ⟨(x, y), LRU.find?_some h, rfl⟩
+    have hx : x ∈ c.keys := List.mem_map.mpr ⟨(x, y), find?_some h, rfl⟩
     rw [if_pos hx]
-    simp only [LRU.keys, List.map_cons, List.filter_map]
+    simp only [keys, List.map_cons, List.filter_map]
     rfl
 
 /-- one call keeps the recency invariant -/
-theorem LRU.call_recent (f : α → β) (c : LRU α β) (h : List α) (hc : c.keys = (recent h).take c.cap) (x : α) :
+theorem call_recent (f : α → β) (c : LRU α β) (h : List α) (hc : c.keys = (recent h).take c.cap) (x : α) :
     (c.call f x).1.keys = (recent (x :: h)).take (c.call f x).1.cap := by
-  rw [LRU.call_cap, LRU.call_keys, hc]
+  rw [call_cap, call_keys, hc]
   show _ = (x :: (recent h).filter (fun k => k ≠ x)).take c.cap
   by_cases hx : x ∈ (recent h).take c.cap
   · rw [if_pos hx]
@@ -114,5 +116,7 @@ theorem LRU.call_recent (f : α → β) (c : LRU α β) (h : List α) (hc : c.ke
       have := take_filter_of_not_mem (recent h) x c.cap hx
       rw [hcap, Nat.add_sub_cancel] at this
       rw [List.take_succ_cons, List.take_succ_cons, this, List.take_take, Nat.min_eq_left (Nat.le_succ j)]
+
+end LRU
 
 end YModel
